@@ -21,41 +21,6 @@ Proof.
   - inv_bind H1. inv_bind H1. injection H1 as <-. rewrite Ha. cbn. rewrite (IH _ Ha0 H2). reflexivity.
 Qed.
 
-(* ---------- the simple iterators are the definition's combinators, errors included ---------- *)
-Lemma filter_iter_eq f rows : filter_iter f rows = filterM (fun rw => holds (f rw)) rows.
-Proof. induction rows as [|rw t IH]; cbn; [reflexivity|]. rewrite cond_true_holds, IH. reflexivity. Qed.
-
-Lemma project_iter_eq pr rows : project_iter pr rows = mapM pr rows.
-Proof. induction rows as [|rw t IH]; cbn; [reflexivity|]. rewrite IH. reflexivity. Qed.
-
-Lemma join_scan_eq f lo wr l R : forall found,
-  join_scan f lo wr l R found =
-  (do ms <- filterM (fun r => holds (f (l ++ r))) R;
-   Ok (map (app l) ms ++ if lo && negb found && is_nil ms then [l ++ nulls wr] else [])).
-Proof.
-  induction R as [|r t IH]; intros found; cbn [join_scan filterM bind].
-  - cbn. rewrite andb_true_r. reflexivity.
-  - rewrite cond_true_holds. destruct (holds (f (l ++ r))) as [b|e]; cbn [bind]; [|reflexivity].
-    destruct b; rewrite IH; destruct (filterM (fun r0 => holds (f (l ++ r0))) t) as [ms|e]; cbn; try reflexivity.
-    rewrite !andb_false_r. cbn. rewrite app_nil_r. reflexivity.
-Qed.
-
-Lemma join_iter_inner_eq f wr L R : join_iter f false wr L R = inner_join (fun rw => holds (f rw)) L R.
-Proof.
-  unfold inner_join. induction L as [|l t IH]; cbn [join_iter mapM bind]; [reflexivity|].
-  rewrite join_scan_eq, IH. destruct (filterM (fun r => holds (f (l ++ r))) R) as [ms|e]; cbn; [|reflexivity].
-  match goal with |- context [mapM ?F t] => destruct (mapM F t) as [ps|e] end; cbn; [|reflexivity]. rewrite app_nil_r. reflexivity.
-Qed.
-
-Lemma join_iter_left_eq f wr L R :
-  join_iter f true wr L R =
-  outer_join (fun rw => holds (f rw)) (fun l r => l ++ r) (fun l => l ++ nulls wr) L R.
-Proof.
-  unfold outer_join. induction L as [|l t IH]; cbn [join_iter mapM bind]; [reflexivity|].
-  rewrite join_scan_eq, IH. destruct (filterM (fun r => holds (f (l ++ r))) R) as [ms|e]; cbn; [|reflexivity].
-  match goal with |- context [mapM ?F t] => destruct (mapM F t) as [ps|e] end; cbn; [|reflexivity]. destruct ms; cbn; [reflexivity|]. rewrite app_nil_r. reflexivity.
-Qed.
-
 Lemma inner_join_sub p p' L R rows : sub p p' -> inner_join p L R = Ok rows -> inner_join p' L R = Ok rows.
 Proof.
   intros S H. unfold inner_join in *. inv_bind H. injection H as <-.
@@ -246,18 +211,49 @@ Section GroupByConv.
   Qed.
 End GroupByConv.
 
+(* the transposed right join, converse *)
+Lemma transposed_join_conv (ev' ev : row -> res val) wl wr L R rows0 :
+  sub ev' ev -> (forall r, In r R -> length r = wr) ->
+  join_iter (fun x => ev' (transpose_row wr x)) true wl R L = Ok rows0 ->
+  outer_join (fun rw => holds (ev rw)) (fun r l => l ++ r) (fun r => nulls wl ++ r) R L =
+  Ok (map (transpose_row wr) rows0).
+Proof.
+  intros S HW H. rewrite join_iter_left_eq in H. unfold outer_join in *. inv_bind H. injection H as <-. rename a into parts.
+  assert (G : exists parts',
+             mapM (fun o => do ms <- filterM (fun i => holds (ev (i ++ o))) L;
+                            Ok (match ms with [] => [nulls wl ++ o] | _ => map (fun i => i ++ o) ms end)) R = Ok parts' /\
+             concat parts' = map (transpose_row wr) (concat parts)).
+  { revert parts Ha. induction R as [|r t IH]; cbn [mapM]; intros parts H.
+    - injection H as <-. exists []. split; reflexivity.
+    - inv_bind H. inv_bind H. injection H as <-. inv_bind Ha. injection Ha as <-. rename a1 into ms.
+      destruct (IH (fun r' Hin => HW r' (or_intror Hin)) _ Ha0) as (parts1 & E1 & M1).
+      assert (Wr : length r = wr) by (apply HW; left; reflexivity).
+      assert (F : filterM (fun i => holds (ev (i ++ r))) L = Ok ms).
+      { refine (filterM_sub (fun i => holds (ev' (i ++ r))) _ L ms (fun i b Hb => holds_sub _ _ S (i ++ r) b Hb) _).
+        rewrite <- Ha1. apply filterM_ext_in. intros l _. rewrite (transpose_app wr r l Wr). reflexivity. }
+      rewrite F. cbn [bind]. rewrite E1. cbn [bind]. eexists. split; [reflexivity|].
+      cbn [concat]. rewrite map_app, M1. f_equal.
+      destruct ms as [|m ms']; cbn [map].
+      + rewrite (transpose_app wr r _ Wr). reflexivity.
+      + rewrite (transpose_app wr r m Wr). f_equal.
+        rewrite map_map. apply map_ext. intros l. symmetry. exact (transpose_app wr r l Wr). }
+  destruct G as (parts' & E & M).
+  match type of E with ?L = _ => match goal with |- bind ?X ?F = ?R => change (bind L F = R) end end.
+  rewrite E. cbn [bind]. f_equal. exact M.
+Qed.
+
 (* ---------- the converse refinement, by structural induction ---------- *)
 Definition Pe2 (e : expr) : Prop :=
-  wf_expr e = true -> forall d en v, eval_pexpr d en (cexpr e) = Ok v -> eval_expr d en e = Ok v.
+  forall d, ok_expr d e = true -> forall en v, eval_pexpr d en (cexpr e) = Ok v -> eval_expr d en e = Ok v.
 Definition Pq2 (q : query) : Prop :=
-  wf_query q = true -> forall d en rows, exec_env d en (plan_of q) = Ok rows -> eval_query d en q = Ok rows.
+  forall d, ok_query d q = true -> forall en rows, exec_env d en (plan_of q) = Ok rows -> eval_query d en q = Ok rows.
 
-Lemma list_conv l : Forall Pe2 l -> forallb wf_expr l = true ->
-  forall d en r, mapM (eval_pexpr d en) (map cexpr l) = Ok r -> mapM (eval_expr d en) l = Ok r.
+Lemma list_conv l : Forall Pe2 l -> forall d, forallb (ok_expr d) l = true ->
+  forall en r, mapM (eval_pexpr d en) (map cexpr l) = Ok r -> mapM (eval_expr d en) l = Ok r.
 Proof.
-  intros F. induction F as [|x t Hx F IH]; cbn [forallb mapM map]; intros W d en r H; [exact H|].
+  intros F. induction F as [|x t Hx F IH]; cbn [forallb mapM map]; intros d W en r H; [exact H|].
   apply andb_prop in W. destruct W as [Wx Wt]. inv_bind H. inv_bind H. injection H as <-.
-  rewrite (Hx Wx _ _ _ Ha). cbn [bind]. rewrite (IH Wt _ _ _ Ha0). reflexivity.
+  rewrite (Hx _ Wx _ _ Ha). cbn [bind]. rewrite (IH _ Wt _ _ Ha0). reflexivity.
 Qed.
 
 Lemma exec_wrap_distinct_inv d en dist p rows :
@@ -269,7 +265,7 @@ Proof.
 Qed.
 
 Lemma select_tail_conv wh proj dist p d en rows :
-  Pe2 wh -> Forall Pe2 proj -> wf_expr wh = true -> forallb wf_expr proj = true ->
+  Pe2 wh -> Forall Pe2 proj -> ok_expr d wh = true -> forallb (ok_expr d) proj = true ->
   exec_env d en (wrap_distinct dist (PProject (map cexpr proj) (PFilter (cexpr wh) p))) = Ok rows ->
   exists rows0 kept out,
     exec_env d en p = Ok rows0 /\
@@ -280,109 +276,222 @@ Proof.
   intros Hwh Hproj Wwh Wproj H. destruct (exec_wrap_distinct_inv _ _ _ _ _ H) as (out & H1 & ->).
   cbn [exec_env] in H1. inv_bind H1. inv_bind Ha. rewrite filter_iter_eq in Ha. rewrite project_iter_eq in H1.
   exists a0, a, out. split; [exact Ha0|]. split; [|split; [|reflexivity]].
-  - refine (filterM_sub _ _ _ _ _ Ha). apply holds_sub. intros rw v Hv. exact (Hwh Wwh _ _ _ Hv).
-  - refine (mapM_sub _ _ _ _ _ H1). intros rw r Hr. exact (list_conv proj Hproj Wproj _ _ _ Hr).
+  - refine (filterM_sub _ _ _ _ _ Ha). apply holds_sub. intros rw v Hv. exact (Hwh _ Wwh _ _ Hv).
+  - refine (mapM_sub _ _ _ _ _ H1). intros rw r Hr. exact (list_conv proj Hproj _ Wproj _ _ Hr).
 Qed.
 
 Theorem exec_converse_mut : (forall e, Pe2 e) /\ (forall q, Pq2 q).
 Proof.
   apply (expr_query_mut Pe2 Pq2); unfold Pe2, Pq2.
-  - (* EConst *) intros v _ d en v' H. exact H.
-  - (* ECol *) intros k i _ d en v H. exact H.
-  - (* ECmp *) intros o a b IHa IHb W d en v H. cbn [wf_expr] in W. apply andb_prop in W. destruct W as [Wa Wb].
+  - (* EConst *) intros v d _ en v' H. exact H.
+  - (* ECol *) intros k i d _ en v H. exact H.
+  - (* ECmp *) intros o a b IHa IHb d W en v H. cbn [ok_expr] in W. apply andb_prop in W. destruct W as [Wa Wb].
     cbn [cexpr eval_pexpr] in H. inv_bind H. inv_bind H. cbn [eval_expr].
-    rewrite (IHa Wa _ _ _ Ha), (IHb Wb _ _ _ Ha0). exact H.
-  - (* EArith *) intros o a b IHa IHb W d en v H. cbn [wf_expr] in W. apply andb_prop in W. destruct W as [Wa Wb].
+    rewrite (IHa _ Wa _ _ Ha), (IHb _ Wb _ _ Ha0). exact H.
+  - (* EArith *) intros o a b IHa IHb d W en v H. cbn [ok_expr] in W. apply andb_prop in W. destruct W as [Wa Wb].
     cbn [cexpr eval_pexpr] in H. inv_bind H. inv_bind H. cbn [eval_expr].
-    rewrite (IHa Wa _ _ _ Ha), (IHb Wb _ _ _ Ha0). exact H.
-  - (* EAnd *) intros a b IHa IHb W d en v H. cbn [wf_expr] in W. apply andb_prop in W. destruct W as [Wa Wb].
+    rewrite (IHa _ Wa _ _ Ha), (IHb _ Wb _ _ Ha0). exact H.
+  - (* EAnd *) intros a b IHa IHb d W en v H. cbn [ok_expr] in W. apply andb_prop in W. destruct W as [Wa Wb].
     cbn [cexpr eval_pexpr] in H. inv_bind H. inv_bind H. cbn [eval_expr].
-    rewrite (IHa Wa _ _ _ Ha), (IHb Wb _ _ _ Ha0). exact H.
-  - (* EOr *) intros a b IHa IHb W d en v H. cbn [wf_expr] in W. apply andb_prop in W. destruct W as [Wa Wb].
+    rewrite (IHa _ Wa _ _ Ha), (IHb _ Wb _ _ Ha0). exact H.
+  - (* EOr *) intros a b IHa IHb d W en v H. cbn [ok_expr] in W. apply andb_prop in W. destruct W as [Wa Wb].
     cbn [cexpr eval_pexpr] in H. inv_bind H. inv_bind H. cbn [eval_expr].
-    rewrite (IHa Wa _ _ _ Ha), (IHb Wb _ _ _ Ha0). exact H.
-  - (* ENot *) intros a IHa W d en v H. cbn [wf_expr] in W.
-    cbn [cexpr eval_pexpr] in H. inv_bind H. cbn [eval_expr]. rewrite (IHa W _ _ _ Ha). exact H.
-  - (* EIsNull *) intros a IHa W d en v H. cbn [wf_expr] in W.
-    cbn [cexpr eval_pexpr] in H. inv_bind H. cbn [eval_expr]. rewrite (IHa W _ _ _ Ha). cbn [bind].
+    rewrite (IHa _ Wa _ _ Ha), (IHb _ Wb _ _ Ha0). exact H.
+  - (* ENot *) intros a IHa d W en v H. cbn [ok_expr] in W.
+    cbn [cexpr eval_pexpr] in H. inv_bind H. cbn [eval_expr]. rewrite (IHa _ W _ _ Ha). exact H.
+  - (* EIsNull *) intros a IHa d W en v H. cbn [ok_expr] in W.
+    cbn [cexpr eval_pexpr] in H. inv_bind H. cbn [eval_expr]. rewrite (IHa _ W _ _ Ha). cbn [bind].
     rewrite <- H. destruct a0; reflexivity.
-  - (* EIn *) intros a l IHa IHl W d en v H. cbn [wf_expr] in W. apply andb_prop in W. destruct W as [Wa Wl].
+  - (* EIn *) intros a l IHa IHl d W en v H. cbn [ok_expr] in W. apply andb_prop in W. destruct W as [Wa Wl].
     cbn [cexpr eval_pexpr] in H. inv_bind H. inv_bind H. rewrite in_loop_in3 in H. cbn [eval_expr].
-    rewrite (IHa Wa _ _ _ Ha), (list_conv l IHl Wl _ _ _ Ha0). exact H.
-  - (* EExists *) intros q IHq W d en v H. cbn [wf_expr] in W.
-    cbn [cexpr eval_pexpr] in H. inv_bind H. cbn [eval_expr]. rewrite (IHq W _ _ _ Ha). exact H.
-  - (* EInQ *) intros a q IHa IHq W d en v H. cbn [wf_expr] in W. apply andb_prop in W. destruct W as [Wa Wq].
+    rewrite (IHa _ Wa _ _ Ha), (list_conv l IHl _ Wl _ _ Ha0). exact H.
+  - (* EExists *) intros q IHq d W en v H. cbn [ok_expr] in W.
+    cbn [cexpr eval_pexpr] in H. inv_bind H. cbn [eval_expr]. rewrite (IHq _ W _ _ Ha). exact H.
+  - (* EInQ *) intros a q IHa IHq d W en v H. cbn [ok_expr] in W. apply andb_prop in W. destruct W as [Wa Wq].
     cbn [cexpr eval_pexpr] in H. inv_bind H. inv_bind H. inv_bind H. rewrite in_loop_in3 in H. cbn [eval_expr].
-    rewrite (IHa Wa _ _ _ Ha), (IHq Wq _ _ _ Ha0). cbn [bind]. rewrite Ha1. exact H.
-  - (* EScalar *) intros q IHq W d en v H. cbn [wf_expr] in W.
-    cbn [cexpr eval_pexpr] in H. inv_bind H. cbn [eval_expr]. rewrite (IHq W _ _ _ Ha). exact H.
-  - (* QTable *) intros t _ d en rows H. exact H.
-  - (* QJoin *) intros k l r on IHl IHr IHon W d en rows H. cbn [wf_query] in W. split_wf W.
-    assert (S : sub (fun rw => holds (eval_pexpr d (rw :: en) (cexpr on))) (fun rw => holds (eval_expr d (rw :: en) on))).
-    { apply holds_sub. intros rw v Hv. exact (IHon W0 _ _ _ Hv). }
-    destruct k; try discriminate; cbn [plan_of exec_env] in H; inv_bind H; inv_bind H; cbn [eval_query];
-      rewrite (IHl W2 _ _ _ Ha), (IHr W1 _ _ _ Ha0); cbn [bind join_rows].
+    rewrite (IHa _ Wa _ _ Ha), (IHq _ Wq _ _ Ha0). cbn [bind]. rewrite Ha1. exact H.
+  - (* EScalar *) intros q IHq d W en v H. cbn [ok_expr] in W.
+    cbn [cexpr eval_pexpr] in H. inv_bind H. cbn [eval_expr]. rewrite (IHq _ W _ _ Ha). exact H.
+  - (* QTable *) intros t d _ en rows H. exact H.
+  - (* QJoin *) intros k l r on IHl IHr IHon d W en rows H. cbn [ok_query] in W. split_wf W.
+    assert (S0 : sub (fun rw => eval_pexpr d (rw :: en) (cexpr on)) (fun rw => eval_expr d (rw :: en) on))
+      by (intros rw v Hv; exact (IHon _ W0 _ _ Hv)).
+    pose proof (holds_sub _ _ S0) as S.
+    destruct k; cbn [plan_of exec_env] in H; inv_bind H; inv_bind H; cbn [eval_query];
+      rewrite (IHl _ W2 _ _ Ha), (IHr _ W1 _ _ Ha0); cbn [bind join_rows].
     + rewrite join_iter_inner_eq in H. exact (inner_join_sub _ _ _ _ _ S H).
     + rewrite join_iter_left_eq, pwidth_plan_of in H. exact (outer_join_sub _ _ _ _ _ _ _ S H).
+    + apply andb_prop in W. destruct W as [Wd Wt]. inv_bind H. injection H as <-. rewrite !pwidth_plan_of in Ha1. rewrite !pwidth_plan_of.
+      exact (transposed_join_conv _ _ (qwidth d l) (qwidth d r) a a0 a1 S0
+               (fun r0 Hr0 => query_width d Wd r Wt en a0 (IHr _ W1 _ _ Ha0) r0 Hr0) Ha1).
     + rewrite cross_join_ok. exact H.
-  - (* QSelect *) intros src wh proj dist IHsrc IHwh IHproj W d en rows H. cbn [wf_query] in W. split_wf W.
+  - (* QSelect *) intros src wh proj dist IHsrc IHwh IHproj d W en rows H. cbn [ok_query] in W. split_wf W.
     cbn [plan_of] in H.
     destruct (select_tail_conv wh proj dist _ d en rows IHwh IHproj W1 W0 H) as (rows0 & kept & out & H1 & H2 & H3 & ->).
-    cbn [eval_query]. rewrite (IHsrc W _ _ _ H1). cbn [bind]. rewrite H2. cbn [bind]. rewrite H3. reflexivity.
-  - (* QGroup *) intros src wh keys aggs hav proj dist IHsrc IHwh IHkeys IHaggs IHhav IHproj W d en rows H.
-    cbn [wf_query] in W. split_wf W. cbn [plan_of] in H.
+    cbn [eval_query]. rewrite (IHsrc _ W _ _ H1). cbn [bind]. rewrite H2. cbn [bind]. rewrite H3. reflexivity.
+  - (* QGroup *) intros src wh keys aggs hav proj dist IHsrc IHwh IHkeys IHaggs IHhav IHproj d W en rows H.
+    cbn [ok_query] in W. split_wf W. cbn [plan_of] in H.
     destruct (select_tail_conv hav proj dist _ d en rows IHhav IHproj W1 W0 H) as (grows & gkept & out & H1 & H2 & H3 & ->).
     cbn [exec_env] in H1. inv_bind H1. inv_bind Ha. rewrite filter_iter_eq in Ha. rewrite map_map, map_length in H1.
     destruct (group_by_conv (fun rw e => eval_expr d (rw :: en) e) (fun rw e => eval_pexpr d (rw :: en) (cexpr e))
                             aggs (fun rw => mapM (eval_expr d (rw :: en)) keys)
                             (fun rw => mapM (eval_pexpr d (rw :: en)) (map cexpr keys)) (length keys) a grows) as (keyed & M & G).
-    + intros rw r Hr. exact (list_conv keys IHkeys W3 _ _ _ Hr).
+    + intros rw r Hr. exact (list_conv keys IHkeys _ W3 _ _ Hr).
     + intros fe Hin rw v Hv. rewrite Forall_forall in IHaggs. rewrite forallb_forall in W2.
-      exact (IHaggs fe Hin (W2 fe Hin) _ _ _ Hv).
+      exact (IHaggs fe Hin _ (W2 fe Hin) _ _ Hv).
     + exact H1.
-    + cbn [eval_query]. rewrite (IHsrc W _ _ _ Ha0). cbn [bind].
+    + cbn [eval_query]. rewrite (IHsrc _ W _ _ Ha0). cbn [bind].
       rewrite (filterM_sub _ (fun rw => holds (eval_expr d (rw :: en) wh)) _ _
-                 (holds_sub _ _ (fun rw v Hv => IHwh W4 _ _ _ Hv)) Ha).
+                 (holds_sub _ _ (fun rw v Hv => IHwh _ W4 _ _ Hv)) Ha).
       cbn [bind]. unfold def_avs in G. cbv beta in M, G.
       match type of M with ?L = _ => match goal with |- bind ?X ?F = ?R => change (bind L F = R) end end.
       rewrite M. cbn [bind].
       match type of G with ?L = _ => match goal with |- bind ?X ?F = ?R => change (bind L F = R) end end.
       rewrite G. cbn [bind].
       rewrite H2. cbn [bind]. rewrite H3. reflexivity.
-  - (* QSetOp *) intros o all l r IHl IHr W d en rows H. cbn [wf_query] in W. split_wf W.
+  - (* QSetOp *) intros o all l r IHl IHr d W en rows H. cbn [ok_query] in W. split_wf W.
     destruct o; try discriminate; cbn [plan_of exec_env] in H; inv_bind H; inv_bind H; injection H as <-;
-      cbn [eval_query]; rewrite (IHl W _ _ _ Ha), (IHr W0 _ _ _ Ha0); cbn [bind].
+      cbn [eval_query]; rewrite (IHl _ W _ _ Ha), (IHr _ W0 _ _ Ha0); cbn [bind].
     + destruct all; cbn [negb union_iter set_op]; [reflexivity|]. rewrite distinct_iter_ok. reflexivity.
     + destruct all; cbn [negb set_op]; [rewrite intersect_iter_ok|rewrite intersect_distinct_ok]; reflexivity.
     + rewrite except_iter_ok, negb_involutive. reflexivity.
-  - (* QOrder *) intros q keys lim IHq W d en rows H. cbn [wf_query] in W.
+  - (* QOrder *) intros q keys lim IHq d W en rows H. cbn [ok_query] in W.
     destruct lim as [[n off]|]; cbn [plan_of exec_env] in H.
     + inv_bind H. inv_bind Ha. inv_bind Ha0. injection Ha0 as <-. injection Ha as <-. injection H as <-.
-      cbn [eval_query]. rewrite (IHq W _ _ _ Ha1). cbn [bind order_limit]. unfold sort_iter. rewrite limit_offset_ok. reflexivity.
-    + inv_bind H. injection H as <-. cbn [eval_query]. rewrite (IHq W _ _ _ Ha). reflexivity.
+      cbn [eval_query]. rewrite (IHq _ W _ _ Ha1). cbn [bind order_limit]. unfold sort_iter. rewrite limit_offset_ok. reflexivity.
+    + inv_bind H. injection H as <-. cbn [eval_query]. rewrite (IHq _ W _ _ Ha). reflexivity.
 Qed.
 
-(* plan and definition agree on every covered query *)
-Theorem exec_agrees_with_definition d en q rows :
-  wf_query q = true -> (exec_env d en (plan_of q) = Ok rows <-> eval_query d en q = Ok rows).
+(* plan and definition agree on every query that satisfies the side condition *)
+Theorem exec_agrees_with_definition_ok d en q rows :
+  ok_query d q = true -> (exec_env d en (plan_of q) = Ok rows <-> eval_query d en q = Ok rows).
 Proof.
-  intros W. split; [exact (proj2 exec_converse_mut q W d en rows)|exact (exec_refines_definition d en q rows W)].
+  intros W. split; [exact (proj2 exec_converse_mut q d W en rows)|exact (exec_refines_definition_ok d en q rows W)].
 Qed.
 
-Theorem expr_agrees_with_definition d en e v :
-  wf_expr e = true -> (eval_pexpr d en (cexpr e) = Ok v <-> eval_expr d en e = Ok v).
+Theorem expr_agrees_with_definition_ok d en e v :
+  ok_expr d e = true -> (eval_pexpr d en (cexpr e) = Ok v <-> eval_expr d en e = Ok v).
 Proof.
-  intros W. split; [exact (proj1 exec_converse_mut e W d en v)|exact (expr_refines_definition d en e v W)].
+  intros W. split; [exact (proj1 exec_converse_mut e d W en v)|exact (expr_refines_definition_ok d en e v W)].
 Qed.
 
 (* the executor fails exactly when the definition raises an error *)
-Corollary exec_fails_iff_definition_fails d en q :
-  wf_query q = true ->
+Corollary exec_fails_iff_definition_fails_ok d en q :
+  ok_query d q = true ->
   ((exists e, exec_env d en (plan_of q) = Err e) <-> (exists e, eval_query d en q = Err e)).
 Proof.
   intros W. split; intros [e He].
   - destruct (eval_query d en q) as [rows|e'] eqn:E; [|eauto].
-    rewrite (exec_refines_definition d en q rows W E) in He. discriminate.
+    rewrite (exec_refines_definition_ok d en q rows W E) in He. discriminate.
   - destruct (exec_env d en (plan_of q)) as [rows|e'] eqn:E; [|eauto].
-    rewrite (proj1 (exec_agrees_with_definition d en q rows W) E) in He. discriminate.
+    rewrite (proj1 (exec_agrees_with_definition_ok d en q rows W) E) in He. discriminate.
+Qed.
+
+(* without RIGHT JOIN: every database *)
+Theorem exec_agrees_with_definition d en q rows :
+  wf_query q = true -> (exec_env d en (plan_of q) = Ok rows <-> eval_query d en q = Ok rows).
+Proof. intros W. exact (exec_agrees_with_definition_ok d en q rows (proj2 (wf_ok_mut d) q W)). Qed.
+
+Theorem expr_agrees_with_definition d en e v :
+  wf_expr e = true -> (eval_pexpr d en (cexpr e) = Ok v <-> eval_expr d en e = Ok v).
+Proof. intros W. exact (expr_agrees_with_definition_ok d en e v (proj1 (wf_ok_mut d) e W)). Qed.
+
+Corollary exec_fails_iff_definition_fails d en q :
+  wf_query q = true ->
+  ((exists e, exec_env d en (plan_of q) = Err e) <-> (exists e, eval_query d en q = Err e)).
+Proof. intros W. exact (exec_fails_iff_definition_fails_ok d en q (proj2 (wf_ok_mut d) q W)). Qed.
+
+(* the side condition in words: rows of the tables have the tables' widths and the set operations inside the
+   right input of a RIGHT JOIN combine equally wide branches; then any query qualifies *)
+(* ---------- hash-lookup join = nested-loop join, when the ON condition entails equal non-NULL keys ---------- *)
+Ltac rwc H :=
+  match type of H with _ = ?R =>
+    match goal with |- bind ?X _ = _ => replace X with R by (symmetry; exact H) end
+  end.
+
+Lemma bucket_pred_true k (kr : option row * row) :
+  fst kr = Some k -> match fst kr with Some k' => row_beq k k' | None => false end = true.
+Proof. intros ->. apply row_beq_refl. Qed.
+
+Lemma join_scan_sublist on lo wr l (P : option row * row -> bool) keyed : forall found a,
+  (forall kr, In kr keyed -> cond_true (on (l ++ snd kr)) = Ok true -> P kr = true) ->
+  join_scan on lo wr l (map snd keyed) found = Ok a ->
+  join_scan on lo wr l (map snd (filter P keyed)) found = Ok a.
+Proof.
+  induction keyed as [|kr t IH]; intros found a HP H; [exact H|].
+  cbn [map join_scan filter] in *. inv_bind H.
+  assert (HP' : forall kr0, In kr0 t -> cond_true (on (l ++ snd kr0)) = Ok true -> P kr0 = true)
+    by (intros kr0 Hin; apply HP; right; exact Hin).
+  destruct a0.
+  - rewrite (HP kr (or_introl eq_refl) Ha). cbn [map join_scan]. rwc Ha. cbn [bind].
+    inv_bind H. injection H as <-. rewrite (IH _ _ HP' Ha0). reflexivity.
+  - destruct (P kr); [cbn [map join_scan]; rwc Ha; cbn [bind]|]; exact (IH _ _ HP' H).
+Qed.
+
+Lemma keyed_spec (rk : row -> res row) R keyed :
+  mapM (fun rw => do k <- hash_key rk rw; Ok (k, rw)) R = Ok keyed ->
+  map snd keyed = R /\ forall kr, In kr keyed -> In (snd kr) R /\ hash_key rk (snd kr) = Ok (fst kr).
+Proof.
+  revert keyed. induction R as [|r t IH]; cbn [mapM]; intros keyed H.
+  - injection H as <-. split; [reflexivity|intros kr []].
+  - inv_bind H. inv_bind H. injection H as <-. inv_bind Ha. injection Ha as <-.
+    destruct (IH _ Ha0) as [E S]. split; [cbn; rewrite E; reflexivity|].
+    intros kr [<-|Hin]; cbn [fst snd]; [split; [left; reflexivity|exact Ha1]|].
+    destruct (S kr Hin) as [S1 S2]. split; [right; exact S1|exact S2].
+Qed.
+
+Theorem hash_join_iter_ok on lo wr (lk rk : row -> res row) L R keyed rows :
+  mapM (fun rw => do k <- hash_key rk rw; Ok (k, rw)) R = Ok keyed ->
+  (forall l, In l L -> exists k, hash_key lk l = Ok k) ->
+  (forall l r, In l L -> In r R -> cond_true (on (l ++ r)) = Ok true ->
+               exists k, hash_key lk l = Ok (Some k) /\ hash_key rk r = Ok (Some k)) ->
+  join_iter on lo wr L R = Ok rows ->
+  hash_join_iter on lo wr lk keyed L = Ok rows.
+Proof.
+  intros HK HT HS. destruct (keyed_spec rk R keyed HK) as [EM SK]. revert rows.
+  induction L as [|l t IH]; cbn [join_iter hash_join_iter]; intros rows H; [exact H|].
+  inv_bind H. inv_bind H. injection H as <-.
+  destruct (HT l (or_introl eq_refl)) as (k & Ek). rewrite Ek. cbn [bind].
+  rewrite (IH (fun l' Hin => HT l' (or_intror Hin)) (fun l' r Hin => HS l' r (or_intror Hin)) _ Ha0). cbn [bind].
+  rewrite <- EM in Ha.
+  assert (Sc : join_scan on lo wr l (match k with Some k' => bucket k' keyed | None => [] end) false = Ok a).
+  { destruct k as [k'|].
+    - unfold bucket. apply join_scan_sublist; [|exact Ha].
+      intros kr Hin Ht. destruct (SK kr Hin) as [S1 S2].
+      destruct (HS l (snd kr) (or_introl eq_refl) S1 Ht) as (k0 & E1 & E2).
+      rewrite Ek in E1. injection E1 as ->.
+      pose proof (eq_trans (eq_sym S2) E2) as X. injection X as X. apply bucket_pred_true. exact X.
+    - replace (@nil row) with (map snd (filter (fun _ : option row * row => false) keyed)).
+      + apply join_scan_sublist; [|exact Ha].
+        intros kr Hin Ht. destruct (SK kr Hin) as [S1 S2].
+        destruct (HS l (snd kr) (or_introl eq_refl) S1 Ht) as (k0 & E1 & _). rewrite Ek in E1. discriminate.
+      + clear. induction keyed as [|x t' IH']; [reflexivity|exact IH']. }
+  rewrite Sc. reflexivity.
+Qed.
+
+Lemma mapM_total {A B} (f : A -> res B) l : (forall x, In x l -> exists y, f x = Ok y) -> exists r, mapM f l = Ok r.
+Proof.
+  induction l as [|x t IH]; intros H; [exists []; reflexivity|].
+  destruct (H x (or_introl eq_refl)) as (y & Ey). destruct (IH (fun x' Hin => H x' (or_intror Hin))) as (r & Er).
+  exists (y :: r). cbn. rewrite Ey. cbn. rewrite Er. reflexivity.
+Qed.
+
+(* plan level: the hash-lookup join returns what the nested-loop join returns, provided the key expressions
+   evaluate on the rows of both inputs and a TRUE ON condition entails equal keys without NULL *)
+Theorem hash_join_plan_ok d en lo l r lk rk on L R rows :
+  exec_env d en l = Ok L -> exec_env d en r = Ok R ->
+  (forall x, In x L -> exists k, hash_key (fun rw => mapM (eval_pexpr d (rw :: en)) lk) x = Ok k) ->
+  (forall y, In y R -> exists k, hash_key (fun rw => mapM (eval_pexpr d (rw :: en)) rk) y = Ok k) ->
+  (forall x y, In x L -> In y R -> cond_true (eval_pexpr d ((x ++ y) :: en) on) = Ok true ->
+     exists k, hash_key (fun rw => mapM (eval_pexpr d (rw :: en)) lk) x = Ok (Some k) /\
+               hash_key (fun rw => mapM (eval_pexpr d (rw :: en)) rk) y = Ok (Some k)) ->
+  exec_env d en (PJoin lo l r on) = Ok rows ->
+  exec_env d en (PHashJoin lo l r lk rk on) = Ok rows.
+Proof.
+  intros HL HR TL TR HS H. cbn [exec_env] in *. rewrite HL, HR in *. cbn [bind] in *.
+  destruct (mapM_total (fun rw => do k <- hash_key (fun rw0 => mapM (eval_pexpr d (rw0 :: en)) rk) rw; Ok (k, rw)) R)
+    as (keyed & HK).
+  { intros y Hy. destruct (TR y Hy) as (k & Ek). exists (k, y). rewrite Ek. reflexivity. }
+  rewrite HK. cbn [bind].
+  exact (hash_join_iter_ok (fun rw => eval_pexpr d (rw :: en) on) lo (pwidth d r) _ _ L R keyed rows HK TL HS H).
 Qed.
